@@ -289,9 +289,12 @@ class C12:
         out["counters"]["fault.segmentation_full_read"] = n
         # chunk_size None (whole text at once) is the reference itself: must agree as well
         srv.wire, srv.enc, srv.plan = raw, None, None
-        whole = HttpSource("http://sim/x").read()
-        if whole.splitlines() != expected:
-            vios.setdefault("whole_text", vio("whole_text_differs", "chunk_size=None returned a different text", key="whole_text"))
+        try:
+            whole = HttpSource("http://sim/x").read()
+            if whole.splitlines() != expected:
+                vios.setdefault("whole_text", vio("whole_text_differs", f"chunk_size=None returned {whole!r} for {text!r}", key="whole_text"))
+        except Exception as e:
+            vios.setdefault("whole_text", vio("whole_text_raised", f"chunk_size=None raised {type(e).__name__}: {e} for {text!r}", key=f"whole_text_raised:{type(e).__name__}"))
         if clean_full:
             r = random.Random(cfg["short_seed"])
             for k in range(6):
